@@ -198,15 +198,25 @@ func c01Token(c *mon.Ctx, r *mon.Rand) {
 // report-on-reacquire + root Close while other workers still run.
 func c01Stress(c *mon.Ctx, r *mon.Rand) {
 	cached := r.Bool()
-	var rec *mon.Recorder
+	// every sixth run configures both reporter kinds: whichever reporter the
+	// library then delivers buffered metrics to, it must deliver all of them
+	// there (a reporter that received any counter delivery is held to the full
+	// conservation oracle)
+	both := r.Chance(1, 6)
+	var rec, rec2 *mon.Recorder
 	opts := tally.ScopeOptions{OmitCardinalityMetrics: r.Bool()}
-	if cached {
+	if cached || both {
 		cr := mon.NewCachedRec(false)
 		rec = cr.Recorder
 		opts.CachedReporter = cr
-	} else {
+	}
+	if !cached || both {
 		pr := mon.NewPlainRec(false)
-		rec = pr.Recorder
+		if both {
+			rec2 = pr.Recorder
+		} else {
+			rec = pr.Recorder
+		}
 		opts.Reporter = pr
 	}
 	interval := time.Duration(r.Range(50, 200)) * time.Microsecond
@@ -220,7 +230,7 @@ func c01Stress(c *mon.Ctx, r *mon.Rand) {
 	prof := mon.RandomProfile(r, []int{tally.VerifCtrLoaded1, tally.VerifCtrLoaded2, tally.VerifRegScopeReported, tally.VerifPassBegin, tally.VerifPassLocked,
 		tally.VerifReacquireBeforeReport, tally.VerifRemoveHandover1, tally.VerifRemoveHandover2, tally.VerifCloseEnter, tally.VerifCloseBeforeFinal, tally.VerifSubscopeUpgrade}, r.Intn(3))
 	inj := mon.NewDelayInjector(r.U64(), prof, true)
-	desc := map[string]interface{}{"cached": cached, "interval_us": interval.Microseconds(), "shards": shards, "scopes": nScopes, "counters_per_scope": perScope,
+	desc := map[string]interface{}{"cached": cached, "both_reporter_kinds_configured": both, "interval_us": interval.Microseconds(), "shards": shards, "scopes": nScopes, "counters_per_scope": perScope,
 		"workers": nWorkers, "reacquire_workers": nReacq, "manual_passers": nPassers, "iterations": iters, "delay_strength": prof.Strength}
 	c.LogCase(fmt.Sprint(desc))
 	stopWatch := c.Watchdog(300*time.Second, "no-progress(deadlock?)", desc)
@@ -338,43 +348,57 @@ func c01Stress(c *mon.Ctx, r *mon.Rand) {
 	atomic.StoreInt32(&inj.Off, 1)
 
 	c.Eval(1)
-	_, agg, _ := rec.Snapshot()
-	var nctr int64
-	for w := range all {
-		for _, x := range all[w] {
-			nctr++
-			a := agg[mon.IdentKey(x.name, nil)]
-			if a.Sum != x.sum {
-				c.Violation("conservation", map[string]interface{}{"why": fmt.Sprintf("%s: delivered total %d, incremented total %d before Close", x.name, a.Sum, x.sum), "case": desc})
+	recsToCheck := []*mon.Recorder{rec}
+	if both {
+		recsToCheck = nil
+		for _, x := range []*mon.Recorder{rec, rec2} {
+			if x.Count(mon.EvCounter) > 0 {
+				recsToCheck = append(recsToCheck, x)
 			}
 		}
-	}
-	for k := 0; k < nShared; k++ {
-		a := agg[mon.IdentKey(fmt.Sprintf("firstuse.sh%d", k), nil)]
-		if a.Sum != sharedSum[k] {
-			c.Violation("conservation-first-use", map[string]interface{}{"why": fmt.Sprintf("firstuse.sh%d: delivered total %d, incremented total %d through the handles %d workers obtained at the same moment", k, a.Sum, sharedSum[k], nWorkers), "case": desc})
+		if len(recsToCheck) == 0 {
+			c.Violation("conservation", map[string]interface{}{"why": "both reporter kinds configured and neither received a single counter delivery", "case": desc})
 		}
+		c.Class("runs-with-both-reporter-kinds", 1)
 	}
-	for w := 0; w < nReacq; w++ {
-		a := agg[mon.IdentKey(fmt.Sprintf("re%d.c", w), nil)]
-		if a.Sum != reSums[w] {
-			c.Violation("conservation-reacquire", map[string]interface{}{"why": fmt.Sprintf("re%d.c: delivered total %d, incremented total %d (close + immediate re-request cycles)", w, a.Sum, reSums[w]), "case": desc})
+	var nctr, deliveries int64
+	for _, rec := range recsToCheck {
+		_, agg, _ := rec.Snapshot()
+		for w := range all {
+			for _, x := range all[w] {
+				nctr++
+				a := agg[mon.IdentKey(x.name, nil)]
+				if a.Sum != x.sum {
+					c.Violation("conservation", map[string]interface{}{"why": fmt.Sprintf("%s: delivered total %d, incremented total %d before Close", x.name, a.Sum, x.sum), "case": desc})
+				}
+			}
 		}
-	}
-	for w := 0; w < 2; w++ {
-		a := agg[mon.IdentKey("ng."+[]string{"a", "b"}[w], nil)]
-		if a.Sum > atomic.LoadInt64(&ngSums[w]) {
-			c.Violation("over-report", map[string]interface{}{"why": fmt.Sprintf("non-guaranteed counter delivered %d > incremented %d", a.Sum, ngSums[w]), "case": desc})
+		for k := 0; k < nShared; k++ {
+			a := agg[mon.IdentKey(fmt.Sprintf("firstuse.sh%d", k), nil)]
+			if a.Sum != sharedSum[k] {
+				c.Violation("conservation-first-use", map[string]interface{}{"why": fmt.Sprintf("firstuse.sh%d: delivered total %d, incremented total %d through the handles %d workers obtained at the same moment", k, a.Sum, sharedSum[k], nWorkers), "case": desc})
+			}
 		}
-	}
-	var deliveries int64
-	for key, a := range agg {
-		deliveries += a.N
-		if a.Neg > 0 {
-			c.Violation("negative-delta", map[string]interface{}{"why": fmt.Sprintf("%d negative deltas delivered for %q although every increment is non-negative", a.Neg, key), "case": desc})
+		for w := 0; w < nReacq; w++ {
+			a := agg[mon.IdentKey(fmt.Sprintf("re%d.c", w), nil)]
+			if a.Sum != reSums[w] {
+				c.Violation("conservation-reacquire", map[string]interface{}{"why": fmt.Sprintf("re%d.c: delivered total %d, incremented total %d (close + immediate re-request cycles)", w, a.Sum, reSums[w]), "case": desc})
+			}
 		}
-		if a.Zero > 0 {
-			c.Violation("zero-delta-delivered", map[string]interface{}{"why": fmt.Sprintf("%d zero deltas delivered for %q", a.Zero, key), "case": desc})
+		for w := 0; w < 2; w++ {
+			a := agg[mon.IdentKey("ng."+[]string{"a", "b"}[w], nil)]
+			if a.Sum > atomic.LoadInt64(&ngSums[w]) {
+				c.Violation("over-report", map[string]interface{}{"why": fmt.Sprintf("non-guaranteed counter delivered %d > incremented %d", a.Sum, ngSums[w]), "case": desc})
+			}
+		}
+		for key, a := range agg {
+			deliveries += a.N
+			if a.Neg > 0 {
+				c.Violation("negative-delta", map[string]interface{}{"why": fmt.Sprintf("%d negative deltas delivered for %q although every increment is non-negative", a.Neg, key), "case": desc})
+			}
+			if a.Zero > 0 {
+				c.Violation("zero-delta-delivered", map[string]interface{}{"why": fmt.Sprintf("%d zero deltas delivered for %q", a.Zero, key), "case": desc})
+			}
 		}
 	}
 	c.Event("counters-checked", nctr)
